@@ -51,7 +51,10 @@ def relerr(a, b, scale=None):
 
 def pick_levels(rng, nz, kind=None):
     """nz = number of nodes; returns a level selection (ascending list, scalar or ndarray)."""
-    kind = kind or str(rng.choice(["top", "scalar", "few", "with_top", "full"]))
+    kind = kind or str(rng.choice(["top", "scalar", "few", "with_top", "full", "shuffled"]))
+    if kind == "shuffled":  # any order: slices must be the solution at the level they are labelled with
+        k = int(rng.integers(2, min(5, nz) + 1))
+        return [int(i) for i in rng.permutation(nz)[:k]], kind
     if kind == "top":
         return nz - 1, kind
     if kind == "scalar":
